@@ -158,7 +158,9 @@ fn check(case: &[u8], acc: &mut Acc) {
             match case[1] {
                 3 => {
                     let t = TypeLengthValue::new(p[0], value);
-                    run_one(acc, "TypeLengthValue::write_to", pc, e, &|w| t.write_to(w), &|| t.to_bytes());
+                    run_one(acc, "TypeLengthValue::write_to", pc, e.clone(), &|w| t.write_to(w), &|| t.to_bytes());
+                    let o = t.to_owned();
+                    run_one(acc, "TypeLengthValue::to_owned().write_to", pc, e, &|w| o.write_to(w), &|| o.to_bytes());
                 }
                 4 => {
                     let t = (p[0], value);
@@ -184,6 +186,14 @@ fn check(case: &[u8], acc: &mut Acc) {
         7 => {
             let s = TypeLengthValues::from(p);
             run_one(acc, "TypeLengthValues::write_to", pc, Some(p.to_vec()), &|w| s.write_to(w), &|| s.to_bytes());
+            // the section is still the whole section after some of it has been iterated
+            let mut it = TypeLengthValues::from(p);
+            for _ in 0..3 {
+                if it.next().is_none() {
+                    break;
+                }
+                run_one(acc, "TypeLengthValues::write_to (after next())", pc, Some(p.to_vec()), &|w| it.write_to(w), &|| it.to_bytes());
+            }
         }
         12 if p.len() >= 3 => {
             let len = len3(&p[0..3]).min(200_000);
